@@ -44,9 +44,62 @@ class C09(InterpProp):
             '(all true) by the checking side')
 
     def knobs(self, rnd, tier):
-        return gen.Knobs(contracts=self.with_contracts, max_states=rnd.choice([6, 10, 16]), shared_code=rnd.choice([0.06, 0.06, 0.25]))
+        hist = rnd.random() < 0.3
+        return gen.Knobs(contracts=self.with_contracts, max_states=rnd.choice([6, 10, 16]), shared_code=rnd.choice([0.06, 0.06, 0.25]),
+                         p_history=0.6 if hist else 0.15, history_focus=0.8 if hist else 0.0)
+
+    def rewind_template(self, rnd):
+        """a history state reached from outside its parent and then again from inside, the parent not being left in
+        between: what it restores is what was remembered when the parent was last left, contracts or not"""
+        from sismic.model import (BasicState, CompoundState, DeepHistoryState, ShallowHistoryState, Statechart, Transition)
+        sc = Statechart('r', preamble='x = 0\ny = 0')
+        sc.add_state(CompoundState('root', initial='P'), None)
+        P = CompoundState('P', initial='t0')
+        P.invariants.append('x >= __old__.x')
+        sc.add_state(P, 'root')
+        n = rnd.randint(3, 5)
+        hk = rnd.choice([ShallowHistoryState, DeepHistoryState])
+        sc.add_state(hk('h', memory='t0'), 'P')
+        for i in range(n):
+            st = BasicState('t%d' % i, on_entry='x += 1\ny = %d' % i)
+            if rnd.random() < 0.5:
+                st.postconditions.append('x > 0')
+            if rnd.random() < 0.5:
+                st.preconditions.append('x >= %d' % 0)
+            sc.add_state(st, 'P')
+        for i in range(n):
+            sc.add_transition(Transition('t%d' % i, 't%d' % ((i + 1) % n), event='next'))
+            if i:
+                sc.add_transition(Transition('t%d' % i, 'h', event='rewind'))
+        O = BasicState('O', on_entry='x += 10')
+        O.postconditions.append('x >= __old__.x')
+        sc.add_state(O, 'root')
+        sc.add_transition(Transition('P', 'O', event='pause'))
+        sc.add_transition(Transition('O', 'h', event='resume'))
+        evs = ['next'] * rnd.randint(1, n - 1) + ['pause', 'resume'] + ['next'] * rnd.randint(1, n - 1) + ['rewind']
+        evs += [rnd.choice(['next', 'rewind', 'pause', 'resume']) for _ in range(rnd.randint(2, 8))]
+        ops1 = [['exec', 0, 0]]
+        for k, e in enumerate(evs):
+            ops1 += [['queue', 0, {'ev': e, 'data': []}], ['exec', 0, k + 1]]
+        return sc, ops1
+
+    def ignoring_world(self, rnd):
+        """every interpreter of the client ignores contracts — the one that runs a property statechart too (handed over
+        ready-made, the form of sismic < 1.4): no condition is evaluated anywhere, no ContractError comes out"""
+        from .c10 import property_chart, KINDS
+        kn = gen.Knobs(contracts=0.6, max_states=rnd.choice([5, 8]))
+        sc = gen.ChartGen(rnd, kn).build()
+        prop = property_chart(rnd.sample(KINDS, 3), 1000)
+        prop.state_for('w').invariants.append('n < 0')          # false from the start: never looked at
+        prop.state_for('w').preconditions.append('n > 100')
+        ops = [['create', 0, True, [], 0], ['bindprop', 0, 1]] + gen.gen_ops(rnd, kn, 16)
+        payload = {'kind': 'interp', 'charts': [ChartEnc(sc).json, ChartEnc(prop).json], 'ops': ops, 'prop_instance': True,
+                   'prop_ignore': True, 'no_model': True, 'via_yaml': False}
+        return Case(payload, {'charts': [sc, prop]}, model_ok=False)
 
     def gen_case(self, rnd, tier):
+        if rnd.random() < 0.04:
+            return self.ignoring_world(rnd)
         self._third = rnd.choice([False, False, 'checking', 'ignoring'])
         if rnd.random() < 1 / 6:
             path = rnd.choice(SHIPPED)
@@ -68,6 +121,9 @@ class C09(InterpProp):
                         t += rnd.choice([0, 1, 2, 5, 10])
                         ops1.append(['exec', 0, t])
                 return self._pair(enc, sc, ops1)
+        if rnd.random() < 0.03:
+            sc, ops1 = self.rewind_template(rnd)
+            return self._pair(ChartEnc(sc), sc, ops1)
         kn = self.knobs(rnd, tier)
         g = gen.ChartGen(rnd, kn)
         sc = g.build()
@@ -142,6 +198,25 @@ class C09(InterpProp):
         ops = case.payload['ops']
         clean = True
         nconds = 0
+        if case.payload.get('prop_ignore'):
+            n = 0
+            for k, o in enumerate(obs['obs']):
+                r = o['r']
+                if not isinstance(r, dict):
+                    continue
+                n += len(oracles.meta_effects(r.get('eff', [])))
+                if any(e[0] == 'cond' for e in r.get('eff', [])):
+                    res.violations.append('op %d: a contract condition was evaluated although every interpreter was created '
+                                          'with ignore_contract=True' % k)
+                    return
+                if r.get('outcome') == 'error' and r['err']['class'] in ('PreconditionError', 'PostconditionError', 'InvariantError'):
+                    res.violations.append('op %d: %s raised although every interpreter was created with ignore_contract=True'
+                                          % (k, r['err']['class']))
+                    return
+            if n >= 5:
+                res.nontrivial = True
+                res.features.add('all-ignoring')
+            return
         for k in range(sum(1 for op in ops if op[0] == 'create'), len(ops) - 1, 2):
             a, b = obs['obs'][k], obs['obs'][k + 1]
             rb = b['r']
